@@ -65,6 +65,14 @@ type Half struct {
 	Seq         uint64
 	MacKey, Key []byte
 	IV          []byte
+	Suite       uint16 // suite these keys belong to (0: the peer's current Suite)
+}
+
+func (h *Half) suiteOr(s uint16) uint16 {
+	if h.Suite != 0 {
+		return h.Suite
+	}
+	return s
 }
 
 // Alert is a received alert.
@@ -119,6 +127,15 @@ type Peer struct {
 	RawIn             [][]byte // every record received, as on the wire (header and body)
 	RecLens           []int    // plaintext length of every protected record received
 	Fragment          int      // >0: cut outgoing handshake messages into records of at most this many bytes
+
+	// renegotiation (RFC 5746)
+	ClientVerify, ServerVerify []byte                     // verify_data of the Finished messages seen last (own computed, peer's as verified)
+	EchoRenegInfo              bool                       // server: answer with renegotiation_info (empty on the first handshake, client||server verify_data on later ones)
+	RenegInfo                  func(honest []byte) []byte // server: replaces the honest renegotiation_info payload of a renegotiation
+	ClientExts                 map[uint16][]byte          // server: extensions found in the last ClientHello
+	Handshakes                 int                        // completed handshake count at the time of the last reset
+	reneg, derived             bool
+	nextWr, nextRd             Half
 }
 
 // New creates a peer with honest defaults.
@@ -156,7 +173,7 @@ func (p *Peer) Seal(typ byte, data []byte, o SealOpt) []byte {
 	if !o.KeepSeq {
 		h.Seq++
 	}
-	if p.Prof.GCM(p.Suite) {
+	if p.Prof.GCM(h.suiteOr(p.Suite)) {
 		nonce := []byte{byte(seq >> 56), byte(seq >> 48), byte(seq >> 40), byte(seq >> 32), byte(seq >> 24), byte(seq >> 16), byte(seq >> 8), byte(seq)}
 		if o.IV != nil {
 			nonce = o.IV
@@ -225,7 +242,7 @@ func (p *Peer) open(typ byte, vers uint16, body []byte) ([]byte, error) {
 	h := &p.Rd
 	seq := h.Seq
 	h.Seq++
-	if p.Prof.GCM(p.Suite) {
+	if p.Prof.GCM(h.suiteOr(p.Suite)) {
 		if len(body) < 24 {
 			return nil, errors.New("gmref: GCM record too short")
 		}
@@ -332,6 +349,12 @@ func (p *Peer) DeriveKeys() error {
 	mine, theirs := c, s
 	if !p.Client {
 		mine, theirs = s, c
+	}
+	if p.reneg {
+		// a later handshake on a protected connection: each direction switches at its own ChangeCipherSpec
+		mine.Suite, theirs.Suite = p.Suite, p.Suite
+		p.nextWr, p.nextRd, p.derived = mine, theirs, true
+		return nil
 	}
 	p.Wr.MacKey, p.Wr.Key, p.Wr.IV = mine.MacKey, mine.Key, mine.IV
 	p.Rd.MacKey, p.Rd.Key, p.Rd.IV = theirs.MacKey, theirs.Key, theirs.IV
@@ -569,6 +592,15 @@ func (p *Peer) SendCCS() error {
 		return err
 	}
 	p.Sent = append(p.Sent, "ChangeCipherSpec")
+	if p.reneg {
+		if !p.derived {
+			if err := p.DeriveKeys(); err != nil {
+				return err
+			}
+		}
+		p.Wr = Half{On: true, MacKey: p.nextWr.MacKey, Key: p.nextWr.Key, IV: p.nextWr.IV, Suite: p.nextWr.Suite}
+		return nil
+	}
 	if p.Wr.Key == nil || p.keySuite != p.Suite {
 		if err := p.DeriveKeys(); err != nil {
 			// a premature ChangeCipherSpec: no keys exist yet, so nothing can be switched on
@@ -603,6 +635,16 @@ func (p *Peer) next() ([]byte, error) {
 		case RecCCS:
 			if len(p.hsIn) != 0 {
 				return nil, errors.New("gmref: ChangeCipherSpec inside a handshake message")
+			}
+			if p.reneg {
+				if !p.derived {
+					if err := p.DeriveKeys(); err != nil {
+						return nil, err
+					}
+				}
+				p.Rd = Half{On: true, MacKey: p.nextRd.MacKey, Key: p.nextRd.Key, IV: p.nextRd.IV, Suite: p.nextRd.Suite}
+				p.Seen = append(p.Seen, "ChangeCipherSpec")
+				break
 			}
 			if p.Rd.Key == nil || p.keySuite != p.Suite {
 				if err := p.DeriveKeys(); err != nil {
@@ -704,6 +746,18 @@ func (p *Peer) digest(m []byte) error {
 		for i := 0; i+1 < cl; i += 2 {
 			p.PeerOffered = append(p.PeerOffered, uint16(rest[2+i])<<8|uint16(rest[3+i]))
 		}
+		p.ClientExts = map[uint16][]byte{}
+		if rest = rest[2+cl:]; len(rest) >= 1 && len(rest) >= 1+int(rest[0])+2 {
+			eb := rest[1+int(rest[0])+2:]
+			for len(eb) >= 4 {
+				t, l := uint16(eb[0])<<8|uint16(eb[1]), int(eb[2])<<8|int(eb[3])
+				if len(eb) < 4+l {
+					break
+				}
+				p.ClientExts[t] = append([]byte{}, eb[4:4+l]...)
+				eb = eb[4+l:]
+			}
+		}
 	case HSServerHello:
 		if len(body) < 38 {
 			return errors.New("gmref: short ServerHello")
@@ -783,6 +837,11 @@ func (p *Peer) digest(m []byte) error {
 			return errors.New("gmref: peer Finished verify_data wrong")
 		}
 		p.PeerFinished = true
+		if p.Client {
+			p.ServerVerify = append([]byte{}, body...)
+		} else {
+			p.ClientVerify = append([]byte{}, body...)
+		}
 	case HSHelloRequest:
 		addTranscript = false
 	}
@@ -851,7 +910,20 @@ func ItemServerHello() Item {
 				p.Suite = p.Suites[0]
 			}
 		}
-		return HS(HSServerHello, ServerHelloBody(p.Vers, p.SR, nil, p.Suite, 0))
+		body := ServerHelloBody(p.Vers, p.SR, nil, p.Suite, 0)
+		if p.EchoRenegInfo {
+			var info []byte
+			if p.Handshakes > 0 {
+				info = append(append([]byte{}, p.ClientVerify...), p.ServerVerify...)
+				if p.RenegInfo != nil {
+					info = p.RenegInfo(info)
+				}
+			}
+			ext := append([]byte{0xff, 0x01}, u16(len(info)+1)...)
+			ext = append(append(ext, byte(len(info))), info...)
+			body = append(append(body, u16(len(ext))...), ext...)
+		}
+		return HS(HSServerHello, body)
 	}}
 }
 
@@ -907,7 +979,13 @@ func ItemFinished() Item {
 		if p.Master == nil {
 			return HS(HSFinished, make([]byte, 12))
 		}
-		return HS(HSFinished, p.VerifyData(p.Client))
+		vd := p.VerifyData(p.Client)
+		if p.Client {
+			p.ClientVerify = vd
+		} else {
+			p.ServerVerify = vd
+		}
+		return HS(HSFinished, vd)
 	}}
 }
 
@@ -1093,3 +1171,55 @@ func (p *Peer) ReadApp(want int) error {
 
 // CloseNotify sends the closing alert.
 func (p *Peer) CloseNotify() error { return p.WriteRecord(RecAlert, []byte{1, 0}) }
+
+// ---------------------------------------------------------------------------------------------
+// renegotiation
+
+// resetHandshake forgets the handshake that ended; record protection stays as it is.
+func (p *Peer) resetHandshake() {
+	p.Handshakes++
+	if p.Wr.Suite == 0 {
+		p.Wr.Suite = p.Suite
+	}
+	if p.Rd.Suite == 0 {
+		p.Rd.Suite = p.Suite
+	}
+	p.Transcript, p.CR, p.SR, p.SessionID, p.PMS, p.Master = nil, nil, nil, nil, nil, nil
+	p.Suite, p.PeerCerts, p.CertRequested = 0, nil, false
+	p.PeerFinished, p.SentFinished = false, false
+	p.ECDHPriv, p.ECDHPeer, p.ECDHOwn = nil, nil, nil
+	p.reneg, p.derived = true, false
+}
+
+// ItemHelloRequest is the server's request for a new handshake (never part of a transcript).
+func ItemHelloRequest() Item {
+	return Item{Name: "HelloRequest", Rec: RecHS, Fragment: true, Build: func(*Peer) []byte { return HS(HSHelloRequest, nil) }}
+}
+
+// RenegotiateServer runs another full handshake on the protected connection in the server role:
+// HelloRequest (when ask is set), then the flights 2 (hello flight) and 3 (ChangeCipherSpec,
+// Finished) of the script's Mutate numbering.
+func (p *Peer) RenegotiateServer(s *Script, ask bool) Result {
+	fail := func(stage string, err error) Result {
+		return Result{Err: err, Stage: stage, Completed: p.PeerFinished && p.SentFinished}
+	}
+	if ask {
+		if err := p.Send(ItemHelloRequest()); err != nil {
+			return fail("send HelloRequest", err)
+		}
+	}
+	p.resetHandshake()
+	if err := p.ReadUntil(HSClientHello); err != nil {
+		return fail("read renegotiation ClientHello", err)
+	}
+	if err := p.sendFlight(s, 2, p.ServerFlight0()); err != nil {
+		return fail("send flight 2", err)
+	}
+	if err := p.ReadUntil(HSFinished); err != nil {
+		return fail("read renegotiation client flight", err)
+	}
+	if err := p.sendFlight(s, 3, []Item{ItemCCS(), ItemFinished()}); err != nil {
+		return fail("send flight 3", err)
+	}
+	return Result{Completed: p.PeerFinished && p.SentFinished, Stage: "renegotiated"}
+}
